@@ -857,6 +857,35 @@ var keyNames = []keyName{
 	{KeyRightMeta, "Meta_R"},
 	{KeyL3Shift, "ISO_Level3_Shift"},
 	{KeyL5Shift, "ISO_Level5_Shift"},
+	{KeyKeyPad0, "KP_0"},
+	{KeyKeyPad1, "KP_1"},
+	{KeyKeyPad2, "KP_2"},
+	{KeyKeyPad3, "KP_3"},
+	{KeyKeyPad4, "KP_4"},
+	{KeyKeyPad5, "KP_5"},
+	{KeyKeyPad6, "KP_6"},
+	{KeyKeyPad7, "KP_7"},
+	{KeyKeyPad8, "KP_8"},
+	{KeyKeyPad9, "KP_9"},
+	{KeyKeyPadDecimal, "KP_Decimal"},
+	{KeyKeyPadDivide, "KP_Divide"},
+	{KeyKeyPadMultiply, "KP_Multiply"},
+	{KeyKeyPadSubtract, "KP_Subtract"},
+	{KeyKeyPadAdd, "KP_Add"},
+	{KeyKeyPadEnter, "KP_Enter"},
+	{KeyKeyPadEqual, "KP_Equal"},
+	{KeyKeyPadSeparator, "KP_Separator"},
+	{KeyKeyPadLeft, "KP_Left"},
+	{KeyKeyPadRight, "KP_Right"},
+	{KeyKeyPadUp, "KP_Up"},
+	{KeyKeyPadDown, "KP_Down"},
+	{KeyKeyPadPageUp, "KP_Page_Up"},
+	{KeyKeyPadPageDown, "KP_Page_Down"},
+	{KeyKeyPadHome, "KP_Home"},
+	{KeyKeyPadEnd, "KP_End"},
+	{KeyKeyPadInsert, "KP_Insert"},
+	{KeyKeyPadDelete, "KP_Delete"},
+	{KeyKeyPadBegin, "KP_Begin"},
 	{KeyTab, "Tab"},
 	{KeyEsc, "Escape"},
 	{KeySpace, "space"},
